@@ -372,33 +372,50 @@ Qed.
 (** One read with room for at least one byte. *)
 Lemma rd_spec cs : forall room, (0 < room)%nat ->
   match rd cs room with
-  | (Ok got, cs') =>
+  | (RdData got, cs') =>
       (length got <= room)%nat /\
       fst (pre_fail cs) = got ++ fst (pre_fail cs') /\ snd (pre_fail cs) = snd (pre_fail cs') /\
       stream_len cs = (length got + stream_len cs')%nat /\
-      (got = [] -> pre_fail cs = ([], None))
-  | (Err e, cs') => pre_fail cs = ([], Some e) /\ (stream_len cs' <= stream_len cs)%nat
-  | (Panic, _) => False
+      stream_pends cs = stream_pends cs' /\
+      (got = [] -> pre_fail cs = ([], None)) /\
+      (forall k, before_stall k cs =
+                 match before_stall k cs' with Some (p, r) => Some (got ++ p, r) | None => None end)
+  | (RdFail e, cs') =>
+      pre_fail cs = ([], Some e) /\ (stream_len cs' <= stream_len cs)%nat /\
+      stream_pends cs = stream_pends cs' /\ (forall k, before_stall k cs = None)
+  | (RdPending, cs') =>
+      pre_fail cs = pre_fail cs' /\ stream_len cs = stream_len cs' /\
+      stream_pends cs = S (stream_pends cs') /\
+      before_stall 0 cs = Some ([], cs') /\ (forall k, before_stall (S k) cs = before_stall k cs')
   end.
 Proof.
   induction cs as [|c r IH]; intros room Hr.
   - cbn. repeat split; auto. lia.
-  - destruct c as [d|e].
+  - destruct c as [d|e|].
     + destruct d as [|x d].
       * cbn [rd]. specialize (IH room Hr). destruct (rd r room) as [[got|e|] cs'].
-        -- destruct IH as (H1 & H2 & H3 & H4 & H5). cbn [pre_fail stream_len length].
+        -- destruct IH as (H1 & H2 & H3 & H4 & H5 & H6 & H7). cbn [pre_fail stream_len stream_pends length before_stall].
            destruct (pre_fail r) as [p f] eqn:Ep. cbn [fst snd app] in *.
            repeat split; auto.
-        -- destruct IH as [H1 H2]. cbn [pre_fail stream_len length]. rewrite H1. cbn. split; [reflexivity|lia].
-        -- exact IH.
+           intros k. rewrite H7. destruct (before_stall k cs') as [[p' r']|]; reflexivity.
+        -- destruct IH as (H1 & H2 & H3 & H4). cbn [pre_fail stream_len stream_pends length before_stall].
+           rewrite H1. cbn. repeat split; auto. intros k. rewrite H4. reflexivity.
+        -- destruct IH as (H1 & H2 & H3 & H4 & H5). cbn [pre_fail stream_len stream_pends length before_stall].
+           rewrite H1. destruct (pre_fail cs') as [p f]. cbn [app].
+           repeat split; auto.
+           ++ rewrite H4. reflexivity.
+           ++ intros k. rewrite H5. destruct (before_stall k cs') as [[p' r']|]; reflexivity.
       * cbn [rd]. set (c := x :: d).
-        cbn [pre_fail stream_len]. destruct (pre_fail r) as [p f] eqn:Ep. cbn [fst snd].
+        cbn [pre_fail stream_len stream_pends before_stall]. destruct (pre_fail r) as [p f] eqn:Ep. cbn [fst snd].
         repeat split.
         -- rewrite firstn_length. lia.
         -- rewrite app_assoc, firstn_skipn. reflexivity.
         -- rewrite skipn_length, firstn_length. lia.
         -- destruct room; [lia|]. unfold c. cbn [firstn]. discriminate.
-    + cbn [rd pre_fail stream_len]. split; [reflexivity|lia].
+        -- intros k. destruct (before_stall k r) as [[p' r']|]; [|reflexivity].
+           rewrite app_assoc, firstn_skipn. reflexivity.
+    + cbn [rd pre_fail stream_len stream_pends before_stall]. repeat split; auto.
+    + cbn [rd pre_fail stream_len stream_pends before_stall]. repeat split; auto.
 Qed.
 
 (** inner [reserve(read, buffer)] on a buffer whose length is its capacity *)
@@ -426,12 +443,40 @@ Proof.
     repeat split; try lia. unfold capacity. apply firstn_all.
 Qed.
 
+(** What the caller finds in the buffer after it dropped the future, with the drop guard
+    ([guard = true]: the bytes delivered so far, nothing else) and without it (the length is
+    still the capacity: behind the bytes delivered so far lies at least one byte nobody wrote). *)
+Definition cancel_obs (guard : bool) (init pre : bytes) (b' : buf) : Prop :=
+  if guard then wf b' /\ contents b' = init ++ pre
+  else b_len b' = capacity b' /\ firstn (length init + length pre) (b_data b') = init ++ pre /\
+       (length init + length pre < capacity b')%nat.
+
+Definition poll_spec_g (guard : bool) (init : bytes) (cs : stream) (max : N) (patience : option nat) (r : rres) : Prop :=
+  match r with
+  | RCancelled b' rest =>
+      exists k pre, patience = Some k /\ before_stall k cs = Some (pre, rest) /\
+        cancel_obs guard init pre b' /\ N.of_nat (length init + length pre) < max
+  | _ => read_spec init cs max r /\
+         match patience with Some k => (stream_pends cs <= k + stream_pends (rres_rest r))%nat | None => True end
+  end.
+
+Lemma poll_spec_g_true init cs max patience r :
+  poll_spec_g true init cs max patience r <-> poll_spec init cs max patience r.
+Proof.
+  destruct r as [b' rest|e b' rest|b' rest| |]; cbn [poll_spec_g poll_spec]; try tauto.
+  unfold cancel_obs. split.
+  - intros (k & pre & Hk & Hb & [W C] & M). exists k, pre. repeat split; auto.
+    rewrite C, app_length. exact M.
+  - intros (k & pre & Hk & Hb & W & C & M). exists k, pre. repeat split; auto.
+    rewrite C, app_length in M. exact M.
+Qed.
+
 (** the specification composes along a successful read *)
 Lemma read_spec_step init got cs cs' max r :
   fst (pre_fail cs) = got ++ fst (pre_fail cs') -> snd (pre_fail cs) = snd (pre_fail cs') ->
   read_spec (init ++ got) cs' max r -> read_spec init cs max r.
 Proof.
-  intros H1 H2 S. destruct r as [b' rest|e b' rest| |]; cbn [read_spec] in *; try contradiction.
+  intros H1 H2 S. destruct r as [b' rest|e b' rest|b' rest| |]; cbn [read_spec] in *; try contradiction.
   - destruct S as (taken & C & P & F & D). exists (got ++ taken).
     repeat split.
     + rewrite C, app_assoc. reflexivity.
@@ -441,24 +486,64 @@ Proof.
   - destruct S as [F C]. split; [congruence|]. rewrite C, H1, app_assoc. reflexivity.
 Qed.
 
+Lemma poll_spec_step guard init got cs cs' max patience r :
+  fst (pre_fail cs) = got ++ fst (pre_fail cs') -> snd (pre_fail cs) = snd (pre_fail cs') ->
+  stream_pends cs = stream_pends cs' ->
+  (forall k, before_stall k cs =
+             match before_stall k cs' with Some (p, r) => Some (got ++ p, r) | None => None end) ->
+  poll_spec_g guard (init ++ got) cs' max patience r -> poll_spec_g guard init cs max patience r.
+Proof.
+  intros H1 H2 H3 H4 S.
+  destruct r as [b' rest|e b' rest|b' rest| |]; cbn [poll_spec_g] in *;
+    try (destruct S as [S P]; split; [eapply read_spec_step; eassumption|rewrite H3; exact P]).
+  destruct S as (k & pre & Hk & Hb & Ho & M). exists k, (got ++ pre).
+  split; [exact Hk|]. split; [rewrite H4, Hb; reflexivity|].
+  split.
+  - unfold cancel_obs in *. destruct guard.
+    + rewrite app_assoc. exact Ho.
+    + rewrite app_length in *. rewrite app_assoc, Nat.add_assoc. exact Ho.
+  - rewrite app_length in *. rewrite Nat.add_assoc. exact M.
+Qed.
+
+(** ... and across a [Pending] the caller sat through *)
+Lemma poll_spec_pend guard init cs cs' max patience patience' r :
+  pre_fail cs = pre_fail cs' -> stream_pends cs = S (stream_pends cs') ->
+  (forall k, before_stall (S k) cs = before_stall k cs') ->
+  match patience with Some (S k) => patience' = Some k | Some O => False | None => patience' = None end ->
+  poll_spec_g guard init cs' max patience' r -> poll_spec_g guard init cs max patience r.
+Proof.
+  intros H1 H2 H3 Hp S.
+  assert (Hrs : forall r0, read_spec init cs' max r0 -> read_spec init cs max r0).
+  { intros r0. destruct r0; cbn [read_spec]; try rewrite H1; auto. }
+  destruct r as [b' rest|e b' rest|b' rest| |]; cbn [poll_spec_g] in *;
+    try (destruct S as [S P]; split; [apply Hrs; exact S|];
+         destruct patience as [[|k]|]; [contradiction|subst patience'; lia|exact I]).
+  destruct S as (k & pre & Hk & Hb & Ho & M).
+  destruct patience as [[|k0]|]; [contradiction| |congruence].
+  exists (S k), pre. rewrite Hp in Hk. inversion Hk; subst k0.
+  repeat split; auto. rewrite H3. exact Hb.
+Qed.
+
 (** Loop invariant: the buffer's length is its capacity, there is room for at least one
     byte, the maximum is not reached, and the fuel covers what is left of the stream. *)
-Lemma rtm_loop_spec grow junk max : grow_ok grow -> forall fuel read b cs,
+Lemma rtm_loop_spec grow junk guard max : grow_ok grow -> forall fuel read b cs patience,
   b_len b = capacity b -> (read < capacity b)%nat -> N.of_nat read < max ->
-  (stream_len cs < fuel)%nat ->
-  read_spec (firstn read (b_data b)) cs max (rtm_loop grow junk fuel max read b cs).
+  (stream_len cs + stream_pends cs < fuel)%nat ->
+  poll_spec_g guard (firstn read (b_data b)) cs max patience (rtm_loop grow junk guard fuel max read b cs patience).
 Proof.
-  intros G. induction fuel as [|f IH]; intros read b cs F R M Fu; [lia|].
+  intros G. induction fuel as [|f IH]; intros read b cs patience F R M Fu; [lia|].
   cbn [rtm_loop]. replace (Nat.ltb (b_len b) read) with false by lia.
   pose proof (rd_spec cs (b_len b - read) ltac:(lia)) as Hrd.
   assert (Hfr : length (firstn read (b_data b)) = read) by (apply firstn_len_le; unfold capacity in R; lia).
   destruct (rd cs (b_len b - read)) as [[got|e|] cs'].
-  - destruct Hrd as (Hl & Hp & Hs & Hn & Hz). destruct got as [|x got].
+  - destruct Hrd as (Hl & Hp & Hs & Hn & Hpe & Hz & Hbs). destruct got as [|x got].
     + (* 0 bytes: end of stream *)
-      rewrite set_len_ok by lia. cbn [read_spec]. exists []. unfold contents. cbn [b_data b_len].
-      rewrite (Hz eq_refl) in *. cbn [fst snd app] in *.
-      split; [symmetry; apply app_nil_r|]. split; [exact Hp|]. split; [symmetry; exact Hs|].
-      left. split; [symmetry; exact Hp| reflexivity].
+      rewrite set_len_ok by lia. cbn [poll_spec_g read_spec rres_rest]. split.
+      * exists []. unfold contents. cbn [b_data b_len].
+        rewrite (Hz eq_refl) in *. cbn [fst snd app] in *.
+        split; [symmetry; apply app_nil_r|]. split; [exact Hp|]. split; [symmetry; exact Hs|].
+        left. split; [symmetry; exact Hp| reflexivity].
+      * destruct patience; [lia|exact I].
     + set (g := x :: got) in *.
       assert (Hput : firstn (read + length g) (b_data (put b read g)) = firstn read (b_data b) ++ g).
       { unfold put. cbn [b_data]. rewrite app_assoc. apply firstn_exact. rewrite app_length, Hfr. reflexivity. }
@@ -466,30 +551,51 @@ Proof.
       { unfold put, capacity in *. cbn [b_data]. rewrite !app_length, skipn_length, Hfr. lia. }
       assert (Hlenp : b_len (put b read g) = b_len b) by reflexivity.
       destruct (N.leb_spec max (N.of_nat (read + length g))) as [Hmax|Hmore].
-      * rewrite set_len_ok by lia. cbn [read_spec]. exists g.
-        unfold contents. cbn [b_data b_len]. rewrite Hput.
-        repeat split; auto. right. rewrite app_length, Hfr. exact Hmax.
+      * rewrite set_len_ok by lia. cbn [poll_spec_g read_spec rres_rest]. split.
+        -- exists g. unfold contents. cbn [b_data b_len]. rewrite Hput.
+           repeat split; auto. right. rewrite app_length, Hfr. exact Hmax.
+        -- destruct patience; [lia|exact I].
       * destruct (rtm_reserve_spec grow junk (read + length g) (put b read g) G ltac:(lia) ltac:(lia))
           as (b2 & -> & F2 & R2 & C2 & D2).
-        eapply read_spec_step; [exact Hp|exact Hs|].
+        eapply poll_spec_step; [exact Hp|exact Hs|exact Hpe|exact Hbs|].
         rewrite <- Hput. rewrite <- D2.
         rewrite firstn_firstn_le by lia.
         apply IH; try assumption; try lia.
         cbn [length] in Hn. unfold g in Hn. cbn [length] in Hn. lia.
-  - destruct Hrd as [Hp _]. rewrite set_len_ok by lia. cbn [read_spec]. rewrite Hp. cbn [fst snd].
-    split; [reflexivity|]. unfold contents. cbn [b_data b_len]. rewrite app_nil_r. reflexivity.
-  - contradiction.
+  - destruct Hrd as (Hp & _ & Hpe & Hbs). rewrite set_len_ok by lia. cbn [poll_spec_g read_spec rres_rest]. split.
+    + rewrite Hp. cbn [fst snd].
+      split; [reflexivity|]. unfold contents. cbn [b_data b_len]. rewrite app_nil_r. reflexivity.
+    + destruct patience; [lia|exact I].
+  - destruct Hrd as (Hp & Hn & Hpe & Hb0 & HbS).
+    destruct patience as [[|k]|].
+    + (* the caller drops the future *)
+      assert (Hobs : cancel_obs guard (firstn read (b_data b)) [] (if guard then mkbuf (b_data b) read else b)).
+      { unfold cancel_obs. destruct guard.
+        - unfold wf, contents, capacity in *. cbn [b_data b_len]. rewrite app_nil_r. split; [lia|reflexivity].
+        - rewrite Hfr. cbn [length]. rewrite Nat.add_0_r, app_nil_r. repeat split; auto. }
+      assert (Hm : N.of_nat (length (firstn read (b_data b)) + length (@nil N)) < max).
+      { rewrite Hfr. cbn [length]. lia. }
+      destruct guard.
+      * rewrite set_len_ok by lia. cbn [poll_spec_g]. exists O, []. auto.
+      * cbn [poll_spec_g]. exists O, []. auto.
+    + eapply (poll_spec_pend guard _ cs cs' max (Some (S k)) (Some k)); [exact Hp|exact Hpe|exact HbS|reflexivity|].
+      apply IH; try assumption; lia.
+    + eapply (poll_spec_pend guard _ cs cs' max None None); [exact Hp|exact Hpe|exact HbS|reflexivity|].
+      apply IH; try assumption; lia.
 Qed.
 
-(** read_all_or_prefix, in the general form (failing readers included) *)
-Lemma read_to_end_or_max_spec grow junk b cs max :
+(** The complete statement for a caller that may drop the future, and for the code with
+    ([guard = true]) and without the drop guard. *)
+Lemma read_poll_spec_g grow junk guard b cs max patience :
   grow_ok grow -> wf b ->
-  read_spec (contents b) cs max (read_to_end_or_max grow junk false b cs max).
+  poll_spec_g guard (contents b) cs max patience (read_poll grow junk false guard b cs max patience).
 Proof.
-  intros G W. unfold read_to_end_or_max.
+  intros G W. unfold read_poll.
   destruct (N.leb_spec max (N.of_nat (b_len b))) as [Hm|Hm].
-  - cbn [read_spec]. exists []. rewrite app_nil_r. repeat split; auto.
-    right. unfold contents. rewrite firstn_len_le by exact W. exact Hm.
+  - cbn [poll_spec_g read_spec rres_rest]. split.
+    + exists []. rewrite app_nil_r. repeat split; auto.
+      right. unfold contents. rewrite firstn_len_le by exact W. exact Hm.
+    + destruct patience; [lia|exact I].
   - rewrite set_len_ok by lia. unfold capacity at 1 2. cbn [b_data b_len].
     replace (Nat.eqb (length (b_data b)) (capacity b)) with true by (unfold capacity; lia).
     destruct (rtm_reserve_spec grow junk (b_len b) (mkbuf (b_data b) (capacity b)) G eq_refl W)
@@ -498,6 +604,104 @@ Proof.
     replace (firstn (b_len b) (b_data b)) with (firstn (b_len b) (b_data b2)).
     + apply rtm_loop_spec; auto; lia.
     + rewrite <- D2 at 1. rewrite firstn_firstn_le by exact W. reflexivity.
+Qed.
+
+Lemma read_poll_spec grow junk b cs max patience :
+  grow_ok grow -> wf b ->
+  poll_spec (contents b) cs max patience (read_poll grow junk false true b cs max patience).
+Proof. intros G W. apply poll_spec_g_true. apply read_poll_spec_g; assumption. Qed.
+
+Lemma poll_spec_none init cs max r : poll_spec_g true init cs max None r -> read_spec init cs max r.
+Proof.
+  destruct r; cbn [poll_spec_g]; try tauto.
+  intros (k & pre & Hk & _). discriminate.
+Qed.
+
+(** read_all_or_prefix, in the general form (failing and pending readers included) *)
+Lemma read_to_end_or_max_spec grow junk b cs max :
+  grow_ok grow -> wf b ->
+  read_spec (contents b) cs max (read_to_end_or_max grow junk false b cs max).
+Proof.
+  intros G W. unfold read_to_end_or_max. eapply poll_spec_none. apply read_poll_spec_g; assumption.
+Qed.
+
+(** A caller that awaits the helper to its end never finds it cancelled, ... *)
+Lemma awaited_never_cancelled grow junk legacy guard b cs max b' rest :
+  read_poll grow junk legacy guard b cs max None <> RCancelled b' rest.
+Proof.
+  unfold read_poll. destruct (max <=? N.of_nat (b_len b)); [discriminate|].
+  destruct (bm_set_len b (capacity b)) as [b1| |]; try discriminate.
+  destruct (if Nat.eqb (capacity b1) (b_len b1) then rtm_reserve grow junk (if legacy then O else b_len b) b1 else Ok b1)
+    as [b2| |]; try discriminate.
+  generalize (S (stream_len cs + stream_pends cs)) as fuel. generalize (b_len b) as read. revert b2 cs.
+  intros b2 cs read fuel. revert read b2 cs.
+  induction fuel as [|f IH]; intros read b2 cs; cbn [rtm_loop]; [discriminate|].
+  destruct (Nat.ltb (b_len b2) read); [discriminate|].
+  destruct (rd cs (b_len b2 - read)) as [[got|e|] cs'].
+  - destruct got as [|x got].
+    + destruct (bm_set_len b2 read); discriminate.
+    + destruct (max <=? N.of_nat (read + length (x :: got))).
+      * destruct (bm_set_len (put b2 read (x :: got)) (read + length (x :: got))); discriminate.
+      * destruct (rtm_reserve grow junk (read + length (x :: got)) (put b2 read (x :: got))); try discriminate. apply IH.
+  - destruct (bm_set_len b2 read); discriminate.
+  - apply IH.
+Qed.
+
+(** ... and for such a caller the drop guard changes nothing. *)
+Lemma guard_irrelevant_when_awaited grow junk legacy b cs max :
+  read_poll grow junk legacy false b cs max None = read_poll grow junk legacy true b cs max None.
+Proof.
+  unfold read_poll. destruct (max <=? N.of_nat (b_len b)); [reflexivity|].
+  destruct (bm_set_len b (capacity b)) as [b1| |]; try reflexivity.
+  destruct (if Nat.eqb (capacity b1) (b_len b1) then rtm_reserve grow junk (if legacy then O else b_len b) b1 else Ok b1)
+    as [b2| |]; try reflexivity.
+  generalize (S (stream_len cs + stream_pends cs)) as fuel. generalize (b_len b) as read.
+  intros read fuel. revert read b2 cs.
+  induction fuel as [|f IH]; intros read b2 cs; cbn [rtm_loop]; [reflexivity|].
+  destruct (Nat.ltb (b_len b2) read); [reflexivity|].
+  destruct (rd cs (b_len b2 - read)) as [[got|e|] cs']; try reflexivity.
+  - destruct got as [|x got]; [reflexivity|].
+    destruct (max <=? N.of_nat (read + length (x :: got))); [reflexivity|].
+    destruct (rtm_reserve grow junk (read + length (x :: got)) (put b2 read (x :: got))); try reflexivity. apply IH.
+  - apply IH.
+Qed.
+
+(** The code before the drop guard: whenever the caller's patience runs out, the buffer it is
+    left with still has its length at its capacity, and behind the bytes delivered so far at
+    least one byte nobody wrote is visible. *)
+Lemma unguarded_cancel_shows_junk grow junk b cs max patience b' rest :
+  grow_ok grow -> wf b ->
+  read_poll grow junk false false b cs max patience = RCancelled b' rest ->
+  exists k pre, patience = Some k /\ before_stall k cs = Some (pre, rest) /\
+    b_len b' = capacity b' /\
+    firstn (length (contents b) + length pre) (contents b') = contents b ++ pre /\
+    (length (contents b) + length pre < length (contents b'))%nat.
+Proof.
+  intros G W E. pose proof (read_poll_spec_g grow junk false b cs max patience G W) as S.
+  rewrite E in S. cbn [poll_spec_g cancel_obs] in S.
+  destruct S as (k & pre & Hk & Hb & (F & P & L) & _). exists k, pre.
+  assert (C : contents b' = b_data b') by (unfold contents; rewrite F; apply firstn_all).
+  rewrite C. repeat split; auto.
+Qed.
+
+Lemma unguarded_cancel_refuted :
+  exists b cs max k, wf b /\
+    ~ poll_spec (contents b) cs max (Some k) (read_poll grow_vec (junk_of []) false false b cs max (Some k)).
+Proof.
+  exists (bm_of (junk_of []) [105; 110] 0), [Data [97; 98; 99]; Pend; Data [100]], 1000, O.
+  split; [apply bm_of_wf|].
+  destruct (read_poll grow_vec (junk_of []) false false (bm_of (junk_of []) [105; 110] 0)
+              [Data [97; 98; 99]; Pend; Data [100]] 1000 (Some O)) as [b' rest|e b' rest|b' rest| |] eqn:E;
+    try (vm_compute in E; discriminate).
+  cbn [poll_spec]. intros (k & pre & Hk & Hb & _ & C & _).
+  injection Hk as <-. cbn in Hb. injection Hb as <- <-.
+  apply (f_equal (@length N)) in C.
+  assert (L : length (contents b') = 1026%nat).
+  { assert (E' : match read_poll grow_vec (junk_of []) false false (bm_of (junk_of []) [105; 110] 0)
+                        [Data [97; 98; 99]; Pend; Data [100]] 1000 (Some O) with
+                 | RCancelled b0 _ => length (contents b0) | _ => O end = 1026%nat) by (vm_compute; reflexivity).
+    rewrite E in E'. exact E'. }
+  rewrite L in C. vm_compute in C. discriminate.
 Qed.
 
 (** ---- streams without failures: the statement of the property ---- *)
@@ -518,7 +722,7 @@ Lemma read_data_stream grow junk b chunks max :
     (taken = concat chunks \/ max <= N.of_nat (length (contents b'))).
 Proof.
   intros G W. pose proof (read_to_end_or_max_spec grow junk b (data_stream chunks) max G W) as S.
-  destruct (read_to_end_or_max grow junk false b (data_stream chunks) max) as [b' rest|e b' rest| |];
+  destruct (read_to_end_or_max grow junk false b (data_stream chunks) max) as [b' rest|e b' rest|b' rest| |];
     cbn [read_spec] in S; try contradiction; rewrite pre_fail_data in S; cbn [fst snd] in S.
   - destruct S as (taken & C & P & F & D). exists b', rest, taken.
     repeat split; auto. destruct D as [[D _]|D]; [left|right; exact D].
@@ -528,7 +732,7 @@ Qed.
 
 Lemma pre_fail_len cs : (length (fst (pre_fail cs)) <= stream_len cs)%nat.
 Proof.
-  induction cs as [|[d|e] r IH]; cbn [pre_fail stream_len fst length]; try lia.
+  induction cs as [|[d|e|] r IH]; cbn [pre_fail stream_len fst length]; try lia.
   destruct (pre_fail r) as [p f]. cbn [fst] in *. rewrite app_length. lia.
 Qed.
 
@@ -545,7 +749,7 @@ Proof.
   pose proof (read_to_end_or_max_spec grow junk _ cs u64_max G W) as S.
   assert (C0 : contents (bm_with_capacity junk 4096) = []) by reflexivity.
   rewrite C0 in S. pose proof (pre_fail_len cs) as Hl.
-  destruct (read_to_end_or_max grow junk false (bm_with_capacity junk 4096) cs u64_max) as [b' rest|e b' rest| |];
+  destruct (read_to_end_or_max grow junk false (bm_with_capacity junk 4096) cs u64_max) as [b' rest|e b' rest|b' rest| |];
     cbn [read_spec] in S; try contradiction.
   - destruct S as (taken & C & P & F & D). cbn [app] in C.
     destruct D as [[D1 D2]|D].
@@ -572,7 +776,7 @@ Lemma legacy_spec_when_room grow junk b cs max :
   grow_ok grow -> wf b -> (b_len b < capacity b \/ capacity b < 32)%nat ->
   read_spec (contents b) cs max (read_to_end_or_max grow junk true b cs max).
 Proof.
-  intros G W Room. unfold read_to_end_or_max.
+  intros G W Room. unfold read_to_end_or_max, read_poll.
   destruct (N.leb_spec max (N.of_nat (b_len b))) as [Hm|Hm].
   - cbn [read_spec]. exists []. rewrite app_nil_r. repeat split; auto.
     right. unfold contents. rewrite firstn_len_le by exact W. exact Hm.
@@ -582,7 +786,7 @@ Proof.
       as (b2 & -> & F2 & R2 & C2 & D2).
     unfold contents. unfold capacity in D2 at 1. unfold capacity in C2 at 1. cbn [b_data] in D2, C2.
     replace (firstn (b_len b) (b_data b)) with (firstn (b_len b) (b_data b2)).
-    + apply rtm_loop_spec; auto; unfold wf, capacity in *; lia.
+    + eapply poll_spec_none. apply rtm_loop_spec; auto; unfold wf, capacity in *; lia.
     + rewrite <- D2 at 1. rewrite firstn_firstn_le by exact W. reflexivity.
 Qed.
 
@@ -606,14 +810,15 @@ Definition same_obs (r1 r2 : rres) : Prop :=
   match r1, r2 with
   | RDone b1 c1, RDone b2 c2 => contents b1 = contents b2 /\ c1 = c2
   | RIoErr e1 b1 c1, RIoErr e2 b2 c2 => e1 = e2 /\ contents b1 = contents b2 /\ c1 = c2
+  | RCancelled b1 c1, RCancelled b2 c2 => contents b1 = contents b2 /\ c1 = c2
   | RPanic, RPanic => True
   | RFuel, RFuel => True
   | _, _ => False
   end.
 
-Lemma rd_len cs : forall room, match fst (rd cs room) with Ok got => (length got <= room)%nat | _ => True end.
+Lemma rd_len cs : forall room, match fst (rd cs room) with RdData got => (length got <= room)%nat | _ => True end.
 Proof.
-  induction cs as [|[d|e] r IH]; intros room; cbn [rd fst length]; try lia.
+  induction cs as [|[d|e|] r IH]; intros room; cbn [rd fst length]; try lia; try exact I.
   destruct d as [|x d]; [apply IH|]. cbn [fst]. rewrite firstn_length. lia.
 Qed.
 
@@ -648,12 +853,12 @@ Proof.
   rewrite !reserve_full_len by (auto; lia). rewrite <- C. reflexivity.
 Qed.
 
-Lemma rtm_loop_no_junk grow j1 j2 max : grow_ok grow -> forall fuel read b1 b2 cs,
+Lemma rtm_loop_no_junk grow j1 j2 max : grow_ok grow -> forall fuel read b1 b2 cs patience,
   b_len b1 = capacity b1 -> b_len b2 = capacity b2 -> capacity b1 = capacity b2 ->
   firstn read (b_data b1) = firstn read (b_data b2) ->
-  same_obs (rtm_loop grow j1 fuel max read b1 cs) (rtm_loop grow j2 fuel max read b2 cs).
+  same_obs (rtm_loop grow j1 true fuel max read b1 cs patience) (rtm_loop grow j2 true fuel max read b2 cs patience).
 Proof.
-  intros G. induction fuel as [|f IH]; intros read b1 b2 cs F1 F2 C D; [exact I|].
+  intros G. induction fuel as [|f IH]; intros read b1 b2 cs patience F1 F2 C D; [exact I|].
   cbn [rtm_loop]. rewrite F1, F2, <- C.
   destruct (Nat.ltb_spec (capacity b1) read) as [|Hr]; [exact I|].
   pose proof (rd_len cs (capacity b1 - read)) as Hl.
@@ -685,20 +890,23 @@ Proof.
         rewrite <- (firstn_firstn_le (read + length g) (capacity (put b2 read g)) (b_data r2)) by lia.
         rewrite B1, B2, P1, P2, D. reflexivity.
   - rewrite !set_len_ok by lia. cbn [same_obs]. unfold contents. cbn [b_data b_len]. auto.
-  - exact I.
+  - destruct patience as [[|k]|].
+    + rewrite !set_len_ok by lia. cbn [same_obs]. unfold contents. cbn [b_data b_len]. auto.
+    + apply IH; auto.
+    + apply IH; auto.
 Qed.
 
 (** The answer depends on the initial buffer only through its visible bytes and its capacity;
     neither the bytes behind its length nor any fresh memory can show up in it. *)
-Lemma read_no_junk grow j1 j2 b1 b2 cs max :
+Lemma read_poll_no_junk grow j1 j2 b1 b2 cs max patience :
   grow_ok grow -> wf b1 -> wf b2 -> contents b1 = contents b2 -> capacity b1 = capacity b2 ->
-  same_obs (read_to_end_or_max grow j1 false b1 cs max) (read_to_end_or_max grow j2 false b2 cs max).
+  same_obs (read_poll grow j1 false true b1 cs max patience) (read_poll grow j2 false true b2 cs max patience).
 Proof.
   intros G W1 W2 C K.
   assert (L : b_len b1 = b_len b2).
   { unfold contents, wf, capacity in *. apply (f_equal (@length N)) in C.
     rewrite !firstn_len_le in C by lia. exact C. }
-  unfold read_to_end_or_max. rewrite <- L.
+  unfold read_poll. rewrite <- L.
   destruct (max <=? N.of_nat (b_len b1)); [cbn [same_obs]; auto|].
   rewrite !set_len_ok by lia. unfold capacity at 1 2 5 6. cbn [b_data b_len].
   replace (Nat.eqb (length (b_data b1)) (capacity b1)) with true by (unfold capacity; lia).
@@ -715,6 +923,11 @@ Proof.
   rewrite <- (firstn_firstn_le (b_len b1) (length (b_data b2)) (b_data r2)) by (unfold capacity in *; lia).
   rewrite B1, B2. unfold contents in C. rewrite <- L in C. exact C.
 Qed.
+
+Lemma read_no_junk grow j1 j2 b1 b2 cs max :
+  grow_ok grow -> wf b1 -> wf b2 -> contents b1 = contents b2 -> capacity b1 = capacity b2 ->
+  same_obs (read_to_end_or_max grow j1 false b1 cs max) (read_to_end_or_max grow j2 false b2 cs max).
+Proof. intros. unfold read_to_end_or_max. apply read_poll_no_junk; assumption. Qed.
 
 (** the same for the file reader and the write buffer (immediate from their equations) *)
 Lemma read_file_no_junk grow j1 j2 cs :
@@ -734,13 +947,327 @@ Lemma no_junk_lemma : forall grow j1 j2, grow_ok grow ->
      | Panic, Panic => True
      | _, _ => False
      end) /\
-  (forall b1 b2 cs max, wf b1 -> wf b2 -> contents b1 = contents b2 -> capacity b1 = capacity b2 ->
-     same_obs (read_to_end_or_max grow j1 false b1 cs max) (read_to_end_or_max grow j2 false b2 cs max)) /\
+  (forall b1 b2 cs max patience, wf b1 -> wf b2 -> contents b1 = contents b2 -> capacity b1 = capacity b2 ->
+     same_obs (read_poll grow j1 false true b1 cs max patience) (read_poll grow j2 false true b2 cs max patience)) /\
   (forall cs, N.of_nat (stream_len cs) < u64_max -> read_file grow j1 cs = read_file grow j2 cs).
 Proof.
   intros grow j1 j2 G. repeat split.
   - intros. apply wb_session_no_junk; assumption.
   - intros. apply replace_no_junk; assumption.
-  - intros. apply read_no_junk; assumption.
+  - intros. apply read_poll_no_junk; assumption.
   - intros. apply read_file_no_junk; assumption.
 Qed.
+
+(** ---- what [write] returns ---- *)
+Lemma sum_len_concat l : length (concat l) = sum_len l.
+Proof. induction l as [|s r IH]; [reflexivity|]. cbn [concat sum_len]. rewrite app_length, IH. reflexivity. Qed.
+
+Lemma wb_writes_n_spec grow junk l : forall w t,
+  wb_writes_n grow junk w l t = obind (wb_writes grow junk w l) (fun w' => Ok (w', (t + sum_len l)%nat)).
+Proof.
+  induction l as [|s r IH]; intros w t; cbn [wb_writes_n wb_writes sum_len obind].
+  - rewrite Nat.add_0_r. reflexivity.
+  - unfold wb_write_n. destruct (wb_write grow junk w s) as [w1| |]; cbn [obind fst snd]; try reflexivity.
+    rewrite IH. destruct (wb_writes grow junk w1 r) as [w2| |]; cbn [obind]; try reflexivity.
+    f_equal. f_equal. lia.
+Qed.
+
+(** writeable_counts: the bytes are the appended writes and the counts [write] returned add up
+    to their number *)
+Lemma wb_session_n_spec grow junk c l :
+  grow_ok grow -> wb_session_n grow junk c l = Ok (wctor_init c ++ concat l, length (concat l)).
+Proof.
+  intros G. unfold wb_session_n.
+  destruct (wb_make_inv junk c) as (w & -> & I). cbn [obind].
+  rewrite wb_writes_n_spec.
+  destruct (wb_writes_inv grow junk l w _ G I) as (w' & -> & I'). cbn [obind fst snd].
+  destruct (wb_into_inner_inv w' _ I') as (b & -> & C & _). cbn [obind]. rewrite C, sum_len_concat. reflexivity.
+Qed.
+
+(** ---- BytesCow: both representations, chains of edits ---- *)
+Definition fits_bytes (body rep : bytes) : Prop :=
+  2 * N.of_nat (length body) + N.of_nat (length rep) <= u64_max.
+
+Lemma wf_len b : wf b -> b_len b = length (contents b).
+Proof. intros W. unfold contents. symmetry. apply firstn_len_le. exact W. Qed.
+
+Lemma cow_ref_mut_wf junk c :
+  cow_wf c -> wf (cow_ref_mut junk c) /\ contents (cow_ref_mut junk c) = cow_bytes c.
+Proof. destruct c as [d|b]; cbn [cow_wf cow_ref_mut cow_bytes]; intros W; [apply bm_of_wf|auto]. Qed.
+
+Lemma cow_replace_c_total grow junk checked c s e rep :
+  grow_ok grow -> cow_wf c -> fits_bytes (cow_bytes c) rep ->
+  if e <=? N.of_nat (length (cow_bytes c)) then
+    exists c', cow_replace_c grow junk checked c s e rep = Ok c' /\ cow_wf c' /\
+               cow_bytes c' = splice (N.to_nat (N.min s e)) (N.to_nat e) rep (cow_bytes c)
+  else cow_replace_c grow junk checked c s e rep = Panic.
+Proof.
+  intros G W Fit. destruct (cow_ref_mut_wf junk c W) as [Wb Cb].
+  assert (L : b_len (cow_ref_mut junk c) = length (cow_bytes c)) by (rewrite <- Cb; apply wf_len; exact Wb).
+  assert (Fb : fits (cow_ref_mut junk c) rep) by (unfold fits, fits_bytes in *; rewrite L; exact Fit).
+  pose proof (replace_total grow junk checked _ s e rep G Wb Fb) as T. rewrite L in T.
+  unfold cow_replace_c.
+  destruct (e <=? N.of_nat (length (cow_bytes c))).
+  - destruct T as (b' & -> & W' & C'). cbn [obind]. exists (CMut b'). rewrite <- Cb. auto.
+  - rewrite T. reflexivity.
+Qed.
+
+(** every step of the chain fits in memory *)
+Fixpoint fits_edits (body : bytes) (es : list edit) : Prop :=
+  match es with
+  | [] => True
+  | (s, e, rep) :: r =>
+      fits_bytes body rep /\
+      (e <= N.of_nat (length body) -> fits_edits (splice (N.to_nat (N.min s e)) (N.to_nat e) rep body) r)
+  end.
+
+Lemma cow_edits_spec grow junk checked es : forall c,
+  grow_ok grow -> cow_wf c -> fits_edits (cow_bytes c) es ->
+  match splice_edits (cow_bytes c) es with
+  | Ok d => exists c', cow_edits grow junk checked c es = Ok c' /\ cow_wf c' /\ cow_bytes c' = d
+  | Panic => cow_edits grow junk checked c es = Panic
+  | Err _ => False
+  end.
+Proof.
+  induction es as [|[[s e] rep] r IH]; intros c G W Fit; cbn [splice_edits cow_edits].
+  - exists c. auto.
+  - destruct Fit as [F1 F2].
+    pose proof (cow_replace_c_total grow junk checked c s e rep G W F1) as T.
+    destruct (N.leb_spec e (N.of_nat (length (cow_bytes c)))) as [Hin|Hout].
+    + destruct T as (c1 & -> & W1 & C1). cbn [obind]. rewrite <- C1. apply IH; auto.
+      rewrite C1. apply F2. exact Hin.
+    + rewrite T. reflexivity.
+Qed.
+
+(** ---- the file functions: the buffers are transparent, the cache only ever holds what a file held ---- *)
+Definition content_of (fs : fsys) (p : N) : option bytes :=
+  match alookup p fs with
+  | None => None
+  | Some n => match pre_fail (fn_stream n) with (d, None) => Some d | (_, Some _) => None end
+  end.
+
+Lemma fs_content_eq fs p : fs_content fs p = Ok (content_of fs p).
+Proof. reflexivity. Qed.
+
+Definition fs_small (fs : fsys) : Prop :=
+  forall p n, alookup p fs = Some n -> N.of_nat (stream_len (fn_stream n)) < u64_max.
+Definition op_small (op : fop) : Prop :=
+  match op with FWrite _ cs _ => N.of_nat (stream_len cs) < u64_max | _ => True end.
+
+Lemma fs_read_content grow junk fs p :
+  grow_ok grow -> fs_small fs -> fs_read grow junk fs p = fs_content fs p.
+Proof.
+  intros G S. unfold fs_read, fs_content. destruct (alookup p fs) as [n|] eqn:E; [|reflexivity].
+  rewrite read_file_spec by (auto; eapply S; exact E).
+  destruct (pre_fail (fn_stream n)) as [d [e|]]; reflexivity.
+Qed.
+
+Lemma alookup_remove p q (fs : fsys) v :
+  alookup q (fs_remove p fs) = Some v -> alookup q fs = Some v.
+Proof.
+  induction fs as [|[k w] r IH]; cbn [fs_remove alookup]; [auto|].
+  destruct (N.eqb_spec p k) as [->|Hpk].
+  - intros H. specialize (IH H). destruct (N.eqb_spec q k) as [->|]; [|exact IH].
+    exfalso. clear IH. revert H. induction r as [|[k' w'] r' IH']; cbn [fs_remove alookup]; [discriminate|].
+    destruct (N.eqb_spec k k') as [->|Hk]; [exact IH'|]. cbn [alookup].
+    destruct (N.eqb_spec k k'); [contradiction|exact IH'].
+  - cbn [alookup]. destruct (q =? k); auto.
+Qed.
+
+Lemma fc_read_ext r1 r2 now v fs p cache :
+  r1 fs p = r2 fs p -> fc_read r1 now v fs p cache = fc_read r2 now v fs p cache.
+Proof. intros E. unfold fc_read. rewrite E. reflexivity. Qed.
+
+(** files_transparent: whatever the history, reading through [read_to_end_or_max] into a
+    [BytesMut] gives the answers that reading the content directly gives *)
+Lemma files_run_transparent grow junk now ops : forall fs c,
+  grow_ok grow -> fs_small fs -> Forall op_small ops ->
+  files_run (fs_read grow junk) now fs c ops = files_run fs_content now fs c ops.
+Proof.
+  induction ops as [|op r IH]; intros fs c G S Hs; [reflexivity|].
+  inversion Hs as [|? ? Hop Hr]; subst. destruct op as [p cs m|p|v p cached]; cbn [files_run].
+  - apply IH; auto. intros q n. cbn [alookup]. destruct (q =? p); [|apply S].
+    intros H. injection H as <-. exact Hop.
+  - apply IH; auto. intros q n H. eapply S. eapply alookup_remove. exact H.
+  - rewrite (fc_read_ext (fs_read grow junk) fs_content) by (apply fs_read_content; auto).
+    destruct (fc_read fs_content now v fs p (if cached then Some c else None)) as [a| |]; cbn [obind]; try reflexivity.
+    rewrite IH by auto. reflexivity.
+Qed.
+
+(** one call: a cached entry answers whatever the file system holds now ... *)
+Lemma fc_read_hit reader now v fs p c opt :
+  alookup p c = Some opt ->
+  fc_read reader now v fs p (Some c) =
+  Ok (match opt with
+      | None => None
+      | Some (m, d) => Some (d, match v with VCachedMtime => Some m | _ => None end)
+      end, Some c).
+Proof. intros H. unfold fc_read. rewrite H. reflexivity. Qed.
+
+(** ... with no cache the answer is the file as it is now ... *)
+Lemma fc_read_uncached now v fs p :
+  fc_read fs_content now v fs p None =
+  Ok (match content_of fs p with
+      | None => None
+      | Some d => match v with
+                  | VCachedMtime => match fs_stat fs p with Some m => Some (d, Some m) | None => None end
+                  | _ => Some (d, None)
+                  end
+      end, None).
+Proof.
+  unfold fc_read. rewrite fs_content_eq. cbn [obind].
+  destruct v, (content_of fs p); reflexivity.
+Qed.
+
+Lemma content_stat fs p d : content_of fs p = Some d -> exists m, fs_stat fs p = Some m.
+Proof. unfold content_of, fs_stat. destruct (alookup p fs) as [n|]; [eexists; reflexivity|discriminate]. Qed.
+
+(** ... and a miss of [file_cached] / [file_cached_with_mtime] answers with the file as it is
+    now and remembers exactly that: [None] is cached exactly when the file could not be read. *)
+Lemma fc_read_miss now v fs p c :
+  alookup p c = None -> v <> VFile ->
+  exists m0,
+  fc_read fs_content now v fs p (Some c) =
+  Ok (match content_of fs p with
+      | None => (None, Some ((p, None) :: c))
+      | Some d => (Some (d, match v with VCachedMtime => Some m0 | _ => None end), Some ((p, Some (m0, d)) :: c))
+      end) /\ (forall d, content_of fs p = Some d -> fs_stat fs p = Some m0).
+Proof.
+  intros H Hv. unfold fc_read. rewrite H, fs_content_eq. cbn [obind].
+  destruct (content_of fs p) as [d|] eqn:Ec.
+  - destruct (content_stat fs p d Ec) as [m Hm]. exists m. rewrite Hm.
+    destruct v; [contradiction| |]; split; auto; intros d' Hd; exact Hm.
+  - exists 0. destruct v; [contradiction| |]; split; auto; discriminate.
+Qed.
+
+(** histories: every answer is what the file held (bytes and modification time) at some
+    moment up to the read -- at the moment of the read when no cache is passed *)
+Definition cache_sound (past : list fsys) (c : fcache) : Prop :=
+  forall p opt, alookup p c = Some opt -> exists fs, In fs past /\
+    match opt with
+    | Some (m, d) => content_of fs p = Some d /\ fs_stat fs p = Some m
+    | None => content_of fs p = None
+    end.
+
+Definition answer_from (states : list fsys) (p : N) (a : fres) : Prop :=
+  exists fs, In fs states /\
+    match a with
+    | Some (d, om) => content_of fs p = Some d /\ (forall m, om = Some m -> fs_stat fs p = Some m)
+    | None => content_of fs p = None
+    end.
+
+Fixpoint answers_ok (past : list fsys) (fs : fsys) (ops : list fop) (rs : list fres) : Prop :=
+  match ops with
+  | [] => rs = []
+  | FWrite p cs m :: r => answers_ok (fs :: past) ((p, mkfnode cs m) :: fs) r rs
+  | FRemove p :: r => answers_ok (fs :: past) (fs_remove p fs) r rs
+  | FRead v p cached :: r =>
+      match rs with
+      | a :: rs' => answer_from (if cached then fs :: past else [fs]) p a /\ answers_ok past fs r rs'
+      | [] => False
+      end
+  end.
+
+Lemma cache_sound_more past past' c : incl past past' -> cache_sound past c -> cache_sound past' c.
+Proof. intros I S p opt H. destruct (S p opt H) as (fs & Hi & Hc). exists fs. split; [apply I; exact Hi|exact Hc]. Qed.
+
+Lemma fc_read_sound now v fs p (cached : bool) c past a c' :
+  cache_sound (fs :: past) c ->
+  fc_read fs_content now v fs p (if cached then Some c else None) = Ok (a, c') ->
+  answer_from (if cached then fs :: past else [fs]) p a /\
+  cache_sound (fs :: past) (match c' with Some c1 => c1 | None => c end).
+Proof.
+  intros S E. destruct cached; cbv iota in E |- *.
+  - destruct (alookup p c) as [opt|] eqn:El.
+    + rewrite (fc_read_hit _ _ _ _ _ _ _ El) in E. injection E as <- <-. split; [|exact S].
+      destruct (S p opt El) as (fs' & Hi & Hc). exists fs'. split; [exact Hi|].
+      destruct opt as [[m d]|]; [|exact Hc]. destruct Hc as [Hc Hm]. split; [exact Hc|].
+      intros m0 Hm0. destruct v; try discriminate. injection Hm0 as <-. exact Hm.
+    + destruct v.
+      * (* file(): a miss reads and does not fill *)
+        unfold fc_read in E. rewrite El, fs_content_eq in E. cbn [obind] in E. injection E as <- <-.
+        split; [|exact S]. exists fs. split; [left; reflexivity|].
+        destruct (content_of fs p); cbn [option_map]; [split; [reflexivity|discriminate]|reflexivity].
+      * destruct (fc_read_miss now VCached fs p c El ltac:(discriminate)) as (m0 & E' & Hm0).
+        pose proof (eq_trans (eq_sym E') E) as E2. clear E E'.
+        destruct (content_of fs p) as [d|] eqn:Ec; injection E2 as <- <-.
+        -- split.
+           ++ exists fs. split; [left; reflexivity|]. split; [exact Ec|discriminate].
+           ++ intros q opt. cbn [alookup]. destruct (N.eqb_spec q p) as [->|]; [|apply S].
+              intros H. injection H as <-. exists fs. split; [left; reflexivity|].
+              split; [exact Ec|apply (Hm0 d); first [exact Ec|reflexivity]].
+        -- split.
+           ++ exists fs. split; [left; reflexivity|exact Ec].
+           ++ intros q opt. cbn [alookup]. destruct (N.eqb_spec q p) as [->|]; [|apply S].
+              intros H. injection H as <-. exists fs. split; [left; reflexivity|exact Ec].
+      * destruct (fc_read_miss now VCachedMtime fs p c El ltac:(discriminate)) as (m0 & E' & Hm0).
+        pose proof (eq_trans (eq_sym E') E) as E2. clear E E'.
+        destruct (content_of fs p) as [d|] eqn:Ec; injection E2 as <- <-.
+        -- split.
+           ++ exists fs. split; [left; reflexivity|]. split; [exact Ec|].
+              intros m Hm. injection Hm as <-. apply (Hm0 d); first [exact Ec|reflexivity].
+           ++ intros q opt. cbn [alookup]. destruct (N.eqb_spec q p) as [->|]; [|apply S].
+              intros H. injection H as <-. exists fs. split; [left; reflexivity|].
+              split; [exact Ec|apply (Hm0 d); first [exact Ec|reflexivity]].
+        -- split.
+           ++ exists fs. split; [left; reflexivity|exact Ec].
+           ++ intros q opt. cbn [alookup]. destruct (N.eqb_spec q p) as [->|]; [|apply S].
+              intros H. injection H as <-. exists fs. split; [left; reflexivity|exact Ec].
+  - rewrite fc_read_uncached in E. injection E as <- <-. split; [|exact S].
+    exists fs. split; [left; reflexivity|].
+    destruct (content_of fs p) as [d|] eqn:Ec; [|reflexivity].
+    destruct v; try (split; [reflexivity|discriminate]).
+    destruct (content_stat fs p d Ec) as [m Hm]. rewrite Hm. split; [reflexivity|].
+    intros m1 H1. injection H1 as <-. first [exact Hm|reflexivity].
+Qed.
+
+Lemma files_answers_sound now ops : forall past fs c rs,
+  cache_sound (fs :: past) c ->
+  files_run fs_content now fs c ops = Ok rs -> answers_ok past fs ops rs.
+Proof.
+  induction ops as [|op r IH]; intros past fs c rs S E.
+  - cbn in E. injection E as <-. reflexivity.
+  - destruct op as [p cs m|p|v p cached]; cbn [files_run answers_ok] in *.
+    + eapply IH; [|exact E]. eapply cache_sound_more; [|exact S]. intros x Hx. right. exact Hx.
+    + eapply IH; [|exact E]. eapply cache_sound_more; [|exact S]. intros x Hx. right. exact Hx.
+    + destruct (fc_read fs_content now v fs p (if cached then Some c else None)) as [[a c']| |] eqn:Ef;
+        cbn [obind fst snd] in E; try discriminate.
+      destruct (fc_read_sound now v fs p cached c past a c' S Ef) as [Ha Sc].
+      destruct (files_run fs_content now fs (match c' with Some c1 => c1 | None => c end) r) as [rs'| |] eqn:Er;
+        cbn [obind] in E; try discriminate.
+      injection E as <-. split; [exact Ha|]. eapply IH; [exact Sc|exact Er].
+Qed.
+
+(** the two together, for the model of the real functions and from the empty state *)
+Lemma files_history_spec grow junk now ops rs :
+  grow_ok grow -> Forall op_small ops ->
+  files_run (fs_read grow junk) now [] [] ops = Ok rs -> answers_ok [] [] ops rs.
+Proof.
+  intros G Hs E. rewrite files_run_transparent in E; auto.
+  - eapply files_answers_sound; [|exact E]. intros p opt H. discriminate.
+  - intros p n H. discriminate.
+Qed.
+
+(** nothing in a history makes the model panic or fail *)
+Lemma files_run_total now ops : forall fs c, exists rs, files_run fs_content now fs c ops = Ok rs.
+Proof.
+  induction ops as [|op r IH]; intros fs c; [eexists; reflexivity|].
+  destruct op as [p cs m|p|v p cached]; cbn [files_run]; try apply IH.
+  assert (H : exists a, fc_read fs_content now v fs p (if cached then Some c else None) = Ok a).
+  { unfold fc_read. rewrite fs_content_eq. cbn [obind].
+    destruct (match (if cached then Some c else None) with Some c0 => alookup p c0 | None => None end); [eexists; reflexivity|].
+    destruct v, (if cached then Some c else None), (content_of fs p); try (eexists; reflexivity);
+      destruct (fs_stat fs p); eexists; reflexivity. }
+  destruct H as [a ->]. cbn [obind].
+  destruct (IH fs (match snd a with Some c' => c' | None => c end)) as [rs ->]. eexists; reflexivity.
+Qed.
+
+Lemma files_transparent_lemma grow junk now ops :
+  grow_ok grow -> Forall op_small ops ->
+  files_run (fs_read grow junk) now [] [] ops = files_run fs_content now [] [] ops.
+Proof. intros G Hs. apply files_run_transparent; auto. intros p n Hl. discriminate. Qed.
+
+Lemma read_awaited_lemma grow junk legacy b cs max :
+  (forall guard b' rest, read_poll grow junk legacy guard b cs max None <> RCancelled b' rest) /\
+  read_poll grow junk legacy false b cs max None = read_poll grow junk legacy true b cs max None.
+Proof. split; [intros; apply awaited_never_cancelled|apply guard_irrelevant_when_awaited]. Qed.
